@@ -3,6 +3,8 @@ CONSTANTS MaxRuns = 2 MaxTouch = 99
   Scens <- ScenGroup2
   Settings <- SettingsDefault
   CreatedSetsChanged = FALSE
+  Reuses = {FALSE}
+  AutoReload = TRUE
   KeepHistory = FALSE
 VIEW view
 INVARIANT TypeOK
